@@ -1,20 +1,20 @@
 #!/bin/bash
-# tools/verify_seed.sh <seed-dir>   (contains patch.diff and demo.rs)
+# tools/verify_seed.sh <seed-dir> [features-for-the-demo]   (seed-dir contains patch.diff and demo.rs)
 # Confirms in a scratch worktree (outside /repo and /verif): the patch applies and compiles, the existing
 # suite passes with it, the demo fails with it and passes without it.
 set -u
-d="$1"; wt=/tmp/vs_seed
+d="$1"; feat="${2:-}"; wt=/tmp/vs_seed
 if [ ! -d "$wt" ]; then git -C /repo worktree add -q --detach "$wt" HEAD || exit 2; fi
 cd "$wt" || exit 2
 git checkout -q --detach "$(git -C /repo rev-parse HEAD)" 2>/dev/null; git checkout -q -- . ; rm -f tests/seed_demo.rs
 mkdir -p tests && cp "$d/demo.rs" tests/seed_demo.rs
-base=$(cargo test --offline --test seed_demo 2>&1 | grep -E "^test result" | head -1)
+base=$(cargo test --offline ${feat:+--features "$feat"} --test seed_demo 2>&1 | grep -E "^test result" | head -1)
 echo "demo WITHOUT change: $base"
 if ! git apply --check "$d/patch.diff" 2>/dev/null; then echo "PATCH DOES NOT APPLY"; exit 1; fi
 git apply "$d/patch.diff"
 suite=$( (cargo test --offline --lib 2>&1; cargo test --offline --doc 2>&1) | grep -E "^test result" | tr '\n' ' ')
 echo "existing suite WITH change: $suite"
-with=$(cargo test --offline --test seed_demo 2>&1 | grep -E "^test result" | head -1)
+with=$(cargo test --offline ${feat:+--features "$feat"} --test seed_demo 2>&1 | grep -E "^test result" | head -1)
 echo "demo WITH change: $with"
 git checkout -q -- . ; rm -f tests/seed_demo.rs
 case "$base" in *"1 passed"*"0 failed"*) ;; *) echo "VERDICT: demo does not pass on the unchanged code"; exit 1;; esac
